@@ -92,8 +92,8 @@ pub fn gnu_complete<const NB: usize, const NL: usize, const NS: usize, const SO:
         i += 1;
     }
     let es = if class == Class::ELF32 { 16 } else { 24 };
-    let mut syms = [0u8; 64];
-    assert!(es * (SO + NS) <= 64);
+    let mut syms = [0u8; 96];
+    assert!(es * (SO + NS) <= 96);
     i = 0;
     while i < NS {
         put_u32(&mut syms[..], es * (SO + i), (1 + 3 * i) as u32, le);
